@@ -92,6 +92,30 @@ def cwWriteCalls (c : Codec) (size : Nat) : Nat → c.St → Bytes → Option (c
       | some (s2, ks, o2) => some (s2, k :: ks, o ++ o2)
       | none => none
 
+
+/-- `finish()`: `while (write_gzip(2048, Z_FINISH) != Z_STREAM_END);` – no input is left (`write` consumed it all) -/
+def cwFinishCalls (c : Codec) : Nat → c.St → Option (c.St × List Call × Bytes)
+  | 0, _ => none
+  | fuel+1, s =>
+    let k : Call := ⟨[], true, scratchSize 2048⟩
+    let (s1, _, o, e) := c.step s [] true (scratchSize 2048)
+    if e then some (s1, [k], o)
+    else match cwFinishCalls c fuel s1 with
+      | some (s2, ks, o2) => some (s2, k :: ks, o ++ o2)
+      | none => none
+
+/-- the whole life of one compressed output: `write(chunk)` for every chunk the encoder hands down, then `finish()`;
+    returns every call made to the codec and every byte handed to the inner writer -/
+def cwLifecycle (c : Codec) (fuel : Nat) : c.St → List Bytes → Option (List Call × Bytes)
+  | s, [] => (cwFinishCalls c fuel s).map fun r => (r.2.1, r.2.2)
+  | s, chunk :: rest =>
+    match cwWriteCalls c chunk.length fuel s chunk with
+    | none => none
+    | some (s1, ks, o) =>
+      match cwLifecycle c fuel s1 rest with
+      | none => none
+      | some (ks2, o2) => some (ks ++ ks2, o ++ o2)
+
 /-! ### system calls of a named output and the file system (C15) -/
 
 inductive Sys where
